@@ -39,10 +39,7 @@ Local Open Scope Z_scope.
 
 Theorem C19_reset_restores_invariant : forall bdec s failed,
   Reach bdec s failed -> wf (reset s) /\ Reach bdec (reset s) false.
-Proof.
-  intros bdec s failed R. split; [|apply R_reset with (b := failed); exact R].
-  destruct (reach_wf bdec s failed R) as [[H1 H2] _]. apply wf_reset; assumption.
-Qed.
+Proof. exact reset_restores_invariant. Qed.
 Print Assumptions C19_reset_restores_invariant.
 
 Theorem C19_frame_end_is_reset : forall bdec s src cap o,
@@ -69,10 +66,7 @@ Theorem C19_stops_at_frame_end : forall bdec s0 data cap o,
   r_ret r = 0 -> zlen (r_out r) < 18446744073709551616 ->
   exists content rest, frame_decode bdec (o_skip o) (d_hist s0) data = Some (content, rest) /\
                        r_consumed r = zlen data - zlen rest.
-Proof.
-  intros bdec s0 data cap o H1 H2 H3 H4 H5 H6 H7 r H8 H9.
-  destruct (oneshot_sound bdec s0 data cap o H1 H2 H3 H4 H5 H6 H7 H8 H9) as (rest & E1 & E2). eauto.
-Qed.
+Proof. exact stops_at_frame_end. Qed.
 Print Assumptions C19_stops_at_frame_end.
 
 Theorem C19_getFrameInfo : forall bdec s m0 m1 m2 m3 rest d tl,
@@ -98,7 +92,7 @@ Theorem C19_cctx_begin_after_any_history : forall ops level cap,
   let c := fold_left cstep ops cctx_init in
   let '(c', r) := cbegin c level cap in
   r = 0 /\ cend_ok c' level = true /\ cctx_wf c' /\ cstage_check c' = 0.
-Proof. intros ops level cap H. apply cbegin_ok; [apply chistory_wf|exact H]. Qed.
+Proof. exact cbegin_after_any_history. Qed.
 Print Assumptions C19_cctx_begin_after_any_history.
 
 (* ---- the hypotheses are met by concrete, non-trivial states ---- *)
